@@ -177,3 +177,34 @@ func VerifC01Extends() {
 	m, err := tcLoad(nil, c01Options, doc)
 	c01Outcome(m, err)
 }
+
+// VerifC01ShortForms: short-syntax strings (well-formed or not) at the attributes that
+// accept them, under every Skip* option: never a panic, always project xor error.
+func VerifC01ShortForms() {
+	attrs := []string{"volumes", "devices", "secrets", "configs", "env_file", "depends_on", "networks", "extra_hosts", "tmpfs", "ulimits", "ports"}
+	n := vrtParam("ATTRS", len(attrs))
+	attr := attrs[vrtChoice("attr", n)]
+	alpha := ":/a"
+	if attr == "ports" {
+		alpha = ":-/18"
+	}
+	s := vrtString("s", vrtParam("L", 4), alpha)
+	var v any = []any{s}
+	if attr == "ulimits" {
+		v = map[string]any{"nofile": s}
+	}
+	doc := map[string]any{"services": map[string]any{"s": map[string]any{"image": "i", attr: v}}}
+	m, err := tcLoad(nil, func(o *Options) {
+		switch vrtChoice("opt", 5) {
+		case 1:
+			o.SkipInterpolation = true
+		case 2:
+			o.SkipValidation = true
+		case 3:
+			o.SkipConsistencyCheck = true
+		case 4:
+			o.SkipNormalization = true
+		}
+	}, doc)
+	c01Outcome(m, err)
+}
